@@ -475,6 +475,23 @@ impl<'a> Ctx<'a> {
 				}
 			}
 		}
+		// the same for the game as it comes back from a .slpp archive (another producer of the finished representation)
+		if let Outcome::Ok(g0) = real::read_slp_noopts(&self.built.bytes) {
+			if let Outcome::Ok(arch) = real::write_slpp(g0, Comp::all()[n % 3]) {
+				if let Outcome::Ok(g2) = real::read_slpp(&arch, false) {
+					let n2 = GameTrait::len(&g2);
+					let c2 = cols::from_immutable(&g2.frames);
+					match guard_plain(|| (0..n2).map(|i| GameTrait::frame(&g2, i)).collect::<Vec<_>>()) {
+						Outcome::Ok(rows) => {
+							if let Some(m) = rows_vs_cols(&cols::from_rows(&rows), &c2, n2) {
+								out.push(viol("rowview_slpp", &cls, "mismatch", m));
+							}
+						}
+						o => out.push(viol("rowview_slpp", &cls, o.kind(), o.detail())),
+					}
+				}
+			}
+		}
 	}
 
 	/// The schema tree the TLA+ layout prescribes for this version and occupancy.
